@@ -205,6 +205,8 @@ def normalise(tree: ast.AST) -> None:
         if isinstance(n, ast.If) and isinstance(n.test, ast.UnaryOp) and isinstance(n.test.op, ast.Not) and n.orelse and not (len(n.orelse) == 1 and isinstance(n.orelse[0], ast.If)):
             n.test = n.test.operand
             n.body, n.orelse = n.orelse, n.body
+    for fn in [x for x in ast.walk(tree) if isinstance(x, (ast.FunctionDef, ast.AsyncFunctionDef))]:
+        _inline_attr_aliases(fn)
     for fn in [x for x in ast.walk(tree) if isinstance(x, (ast.FunctionDef, ast.AsyncFunctionDef, ast.Module))]:
         counts = {}
         pairs = {}
@@ -228,6 +230,10 @@ def normalise(tree: ast.AST) -> None:
                 i = 0
                 while i < len(body):
                     st = body[i]
+                    if isinstance(st, ast.AnnAssign) and st.value is not None and st.simple and isinstance(st.target, ast.Name) and not isinstance(fn, ast.Module) and not isinstance(holder, ast.ClassDef):
+                        # x: T = v inside a function is x = v
+                        st = ast.copy_location(ast.Assign(targets=[st.target], value=st.value), st)
+                        ast.fix_missing_locations(st)
                     if (isinstance(st, ast.Assign) and len(st.targets) == 1 and isinstance(st.targets[0], ast.Name) and isinstance(st.value, ast.BinOp) and isinstance(st.value.op, (ast.Add, ast.Sub))
                             and isinstance(st.value.left, ast.Name) and st.value.left.id == st.targets[0].id):
                         st = ast.copy_location(ast.AugAssign(target=ast.Name(st.targets[0].id, ast.Store()), op=st.value.op, value=st.value.right), st)
@@ -247,6 +253,94 @@ def normalise(tree: ast.AST) -> None:
                     out.append(st)
                     i += 1
                 body[:] = out
+
+
+def _inline_attr_aliases(fn) -> None:
+    """`t = self.attr` ... uses of t     ->     uses of self.attr, when t is bound exactly once (at the top level of the method body, so it dominates
+    its uses), is not captured by a nested function, and self.attr is not re-bound in the method before the last use of t (a re-bound attribute
+    names another object than the alias).  The alias statement is dropped."""
+    if not fn.args.args:
+        return
+    me = fn.args.args[0].arg
+    import copy as _copy
+    stores = {}
+    nested_names = set()
+    for n in ast.walk(fn):
+        if isinstance(n, ast.Name) and isinstance(n.ctx, (ast.Store, ast.Del)):
+            stores[n.id] = stores.get(n.id, 0) + 1
+        elif isinstance(n, (ast.Global, ast.Nonlocal)):
+            for nm in n.names:
+                stores[nm] = stores.get(nm, 0) + 2
+        elif isinstance(n, (ast.FunctionDef, ast.AsyncFunctionDef, ast.Lambda)) and n is not fn:
+            nested_names |= {x.id for x in ast.walk(n) if isinstance(x, ast.Name)}
+    if stores.get(me, 0):
+        return
+    params = {a.arg for a in fn.args.posonlyargs + fn.args.args + fn.args.kwonlyargs} | ({fn.args.vararg.arg} if fn.args.vararg else set()) | ({fn.args.kwarg.arg} if fn.args.kwarg else set())
+    for i, st in enumerate(list(fn.body)):
+        if not (isinstance(st, ast.Assign) and len(st.targets) == 1 and isinstance(st.targets[0], ast.Name) and isinstance(st.value, ast.Attribute)
+                and isinstance(st.value.value, ast.Name) and st.value.value.id == me):
+            continue
+        t, attr = st.targets[0].id, st.value.attr
+        if stores.get(t, 0) != 1 or t in params or t in nested_names:
+            continue
+        rest = fn.body[fn.body.index(st) + 1:]
+        uses = [x for b in rest for x in ast.walk(b) if isinstance(x, ast.Name) and x.id == t]
+        if any(x.id == t for b in fn.body[:fn.body.index(st)] for x in ast.walk(b) if isinstance(x, ast.Name)):
+            continue
+        # re-binding of the attribute: allowed only in a statement after which t is not used any more, and outside loops
+        rebinds = []
+        ok = True
+        for b in rest:
+            for x in ast.walk(b):
+                tg = []
+                if isinstance(x, ast.Assign):
+                    tg = x.targets
+                elif isinstance(x, (ast.AugAssign, ast.AnnAssign)):
+                    tg = [x.target]
+                elif isinstance(x, ast.Delete):
+                    tg = x.targets
+                for y in tg:
+                    for z in (y.elts if isinstance(y, (ast.Tuple, ast.List)) else [y]):
+                        if isinstance(z, ast.Attribute) and isinstance(z.value, ast.Name) and z.value.id == me and z.attr == attr:
+                            rebinds.append((b, x))
+                if isinstance(x, ast.Call) and isinstance(x.func, ast.Name) and x.func.id in ('setattr', 'delattr'):
+                    ok = False
+        for b, x in rebinds:
+            if isinstance(x, ast.AugAssign):
+                ok = False        # self.attr += ... may or may not keep the object
+                continue
+            later = rest[rest.index(b) + 1:]
+            in_loop = any(isinstance(l, (ast.For, ast.While)) and any(y is x for y in ast.walk(l)) for l in ast.walk(b))
+            used_later = any(isinstance(y, ast.Name) and y.id == t for l in later for y in ast.walk(l))
+            # within the re-binding statement itself t may only be read by the value (evaluated before the store); other statements of the same
+            # compound statement that follow the store must not read it
+            same_stmt_after = False
+            if b is not x:
+                seen_store = False
+                for y in ast.walk(b):
+                    if y is x:
+                        seen_store = True
+                for blk in ast.walk(b):
+                    for field in ('body', 'orelse', 'finalbody'):
+                        lst = getattr(blk, field, None)
+                        if isinstance(lst, list) and x in lst:
+                            after = lst[lst.index(x) + 1:]
+                            if any(isinstance(y, ast.Name) and y.id == t for l in after for y in ast.walk(l)):
+                                same_stmt_after = True
+            if in_loop or used_later or same_stmt_after:
+                ok = False
+        if not ok:
+            continue
+
+        class R(ast.NodeTransformer):
+            def visit_Name(self, node):
+                if node.id == t and isinstance(node.ctx, ast.Load):
+                    return ast.copy_location(ast.Attribute(value=ast.Name(me, ast.Load()), attr=attr, ctx=ast.Load()), node)
+                return node
+        for b in rest:
+            R().visit(b)
+            ast.fix_missing_locations(b)
+        fn.body[fn.body.index(st)] = ast.copy_location(ast.Pass(), st)
 
 
 def _is_main_guard(test: ast.AST) -> bool:
@@ -293,6 +387,81 @@ def func_vocabulary(node: ast.AST) -> set:
             out.add('<' + type(n).__name__ + '>')
         todo.extend(ast.iter_child_nodes(n))
     return out
+
+
+def class_attr_writes(cls_node: ast.ClassDef) -> dict:
+    """self.<attr> -> list of (method name, statement, value or None, at top level of the method body) for every write in the class"""
+    out = {}
+    for f in cls_node.body:
+        if not isinstance(f, (ast.FunctionDef, ast.AsyncFunctionDef)) or not f.args.args:
+            continue
+        me = f.args.args[0].arg
+        for n in ast.walk(f):
+            tgs = []
+            if isinstance(n, ast.Assign):
+                tgs = [(t, n.value) for t in n.targets]
+            elif isinstance(n, ast.AnnAssign):
+                tgs = [(n.target, n.value)]
+            elif isinstance(n, ast.AugAssign):
+                tgs = [(n.target, None)]
+            elif isinstance(n, ast.Delete):
+                tgs = [(t, None) for t in n.targets]
+            elif isinstance(n, (ast.For, ast.comprehension)):
+                tgs = [(n.target, None)]
+            for t, v in tgs:
+                for x in (t.elts if isinstance(t, (ast.Tuple, ast.List)) else [t]):
+                    if isinstance(x, ast.Attribute) and isinstance(x.value, ast.Name) and x.value.id == me:
+                        out.setdefault(x.attr, []).append((f.name, n, v if x is t else None, n in f.body, me))
+            if isinstance(n, ast.Call) and isinstance(n.func, ast.Name) and n.func.id == 'setattr':
+                out.setdefault('*', []).append((f.name, n, None, False, me))
+    return out
+
+
+def derived_attr(cls_node: ast.ClassDef, attr: str, known: set, depth: int = 0):
+    """the defining expression (over `self`) of an attribute that the class did not have in the confirmed tree, when it is bound exactly once, at
+    the top level of __init__, to an expression over constants and attributes that are themselves bound once at the top level of __init__
+    (a cached sub-expression such as `self._mask = self.m - 1`); None otherwise"""
+    if depth > 3 or attr in known:
+        return None
+    writes = class_attr_writes(cls_node)
+    if '*' in writes:
+        return None
+    w = writes.get(attr) or []
+    if len(w) != 1 or w[0][0] != '__init__' or not w[0][3] or w[0][2] is None:
+        return None
+    me = w[0][4]
+    value = w[0][2]
+    init = next(f for f in cls_node.body if isinstance(f, ast.FunctionDef) and f.name == '__init__')
+    pos = init.body.index(w[0][1])
+    for x in ast.walk(value):
+        if isinstance(x, ast.Name) and x.id != me and isinstance(x.ctx, ast.Load):
+            return None        # depends on a constructor argument or a global: not an expression over the object
+        if isinstance(x, ast.Call):
+            return None
+        if isinstance(x, ast.Attribute) and isinstance(x.value, ast.Name) and x.value.id == me:
+            ww = writes.get(x.attr) or []
+            if len(ww) != 1 or ww[0][0] != '__init__' or not ww[0][3] or init.body.index(ww[0][1]) > pos:
+                return None
+    return value, me
+
+
+def func_skeleton(node: ast.AST) -> tuple:
+    """the control structure of a function body: kind and nesting depth of its compound statements and comprehensions, in program order
+    (edits that change constants, operators, arguments or simple statements leave it unchanged; restructured loops / branches do not)"""
+    out = []
+
+    def walk(n, depth):
+        for c in ast.iter_child_nodes(n):
+            if isinstance(c, (ast.FunctionDef, ast.AsyncFunctionDef, ast.ClassDef, ast.Lambda)):
+                out.append((depth, type(c).__name__))
+                continue
+            if isinstance(c, (ast.For, ast.While, ast.If, ast.Try, ast.With, ast.ListComp, ast.SetComp, ast.DictComp, ast.GeneratorExp, ast.IfExp, ast.Match)):
+                out.append((depth, type(c).__name__))
+                walk(c, depth + 1)
+            else:
+                walk(c, depth)
+    walk(node, 0)
+    return tuple(out)
 
 
 class Repo:
@@ -355,7 +524,15 @@ class Repo:
                 base = VOCAB.get(mn, {}).get(qualname)
                 if f is None or base is None:
                     return set()
-                return func_vocabulary(f.node) - set(base)
+                new = func_vocabulary(f.node) - set(base)
+                try:
+                    from .baseline import SKELETON
+                    sk = SKELETON.get(mn, {}).get(qualname)
+                    if sk is not None and tuple(map(tuple, sk)) != func_skeleton(f.node):
+                        new.add('<restructured control flow>')
+                except ImportError:
+                    pass
+                return new
         return set()
 
     # -- anchors ------------------------------------------------------------
